@@ -258,8 +258,12 @@ def run(M, rep, tier, only=None):
                   detail=describe_path(bad[0]) if bad else None)
 
     # ------------------------------------------------------------------ R3
+    from .common import private_helper
+    fpr = private_helper(ctx, "Source", "_find_parent_recursive", [("Source", "parent_source", "getters")],
+                         pick=lambda h: h.cls is not None and h.cls.name == "Source")
+    FPR = fpr.node.name if fpr is not None else "_find_parent_recursive"
     for cn, name, tb, contattr in (("Section", "parent", "getters", "sections"), ("Source", "parent_source", "getters", "sources"),
-                                   ("Source", "_find_parent_recursive", "methods", "sources")):
+                                   ("Source", FPR, "methods", "sources")):
         f = ctx.member(cn, name, tb)
         key = "%s.%s" % (cn, name)
         if f is None:
@@ -304,10 +308,10 @@ def run(M, rep, tier, only=None):
                         ok = True
             if name == "parent_source":
                 # delegates to the recursive helper with this source's id
-                calls = [e for e in p.events if e.kind in ("rcall", "ucall", "ocall") and "_find_parent_recursive" in e.op]
+                calls = [e for e in p.events if e.kind in ("rcall", "ucall", "ocall") and FPR in e.op]
                 ok = ok or any("entity_id" in show(e.args[0].t) or e.args[0].t == ("self",) for e in calls if e.args)
-                ok = ok or "_find_parent_recursive" in show(rv.t)
-            if name == "_find_parent_recursive" and "_find_parent_recursive" in show(rv.t):
+                ok = ok or FPR in show(rv.t)
+            if name == FPR and FPR in show(rv.t):
                 ok = True           # result of the recursive call on a child
             if not ok:
                 bad = (p, "a parent is returned that was not found by testing membership of this entity in its children")
